@@ -3,7 +3,8 @@
 # Must-fail corpus: applies every /verif/selftest/mutants/<id>-*.patch and /verif/seeded/<id>/*/patch.diff to a scratch
 # copy of /repo's working tree (outside /repo and /verif, removed afterwards), runs the property's quick check
 # against the copy and requires a VIOLATION. Also requires silence on the unchanged copy.
-VERIF=/verif
+VERIF=${VERIF_ROOT:-$(cd "$(dirname "$0")/.." && pwd)}
+BASE=${VERIF_BASE_REPO:-/repo}
 ids="$*"
 [ -z "$ids" ] && ids=$(ls $VERIF/selftest/mutants $VERIF/seeded 2>/dev/null | sed -n 's/^\(C[0-9][0-9]\).*/\1/p' | sort -u)
 fail=0
@@ -12,7 +13,7 @@ for id in $ids; do
   patches=$(ls $VERIF/selftest/mutants/$id-*.patch $VERIF/seeded/$id/*/patch.diff 2>/dev/null)
   for p in "" $patches; do
     S=$(mktemp -d ${TMPDIR:-/tmp}/verif-scratch-XXXXXX)
-    rsync -a --exclude .git /repo/ $S/
+    rsync -a --exclude .git $BASE/ $S/
     name=${p:-unchanged}
     if [ -n "$p" ]; then
       (cd $S && patch -p1 -s --no-backup-if-mismatch < $p) || { echo "SELFTEST $id $name: patch does not apply"; fail=1; rm -rf $S; continue; }
